@@ -120,7 +120,15 @@ PPL_PROTO((ppl_const_@CLASS@_t pset_before,
 
 m4_define(`ppl_@CLASS@_linear_@PARTITION@_code',
 `dnl
-/*! \relates ppl_@CLASS@_tag */
+/*! \relates ppl_@CLASS@_tag \brief
+  Partitions \p y with respect to \p x: writes at address \p p_inters
+  a handle to the intersection of \p x and \p y and at address \p p_rest
+  a handle to a powerset of not necessarily closed polyhedra holding
+  the rest of \p y.  Both objects are newly allocated: the caller owns them
+  and is in charge of deleting them (with <CODE>ppl_delete_@CLASS@</CODE> and
+  <CODE>ppl_delete_Pointset_Powerset_NNC_Polyhedron</CODE>, respectively).
+  Nothing is written in case of error.
+*/
 int
 ppl_@CLASS@_linear_@PARTITION@
 PPL_PROTO((ppl_const_@CLASS@_t x,
@@ -132,7 +140,13 @@ PPL_PROTO((ppl_const_@CLASS@_t x,
 
 m4_define(`ppl_@CLASS@_approximate_@PARTITION@_code',
 `dnl
-/*! \relates ppl_@CLASS@_tag */
+/*! \relates ppl_@CLASS@_tag \brief
+  Like the linear partition, for grids: the objects written at addresses
+  \p p_inters and \p p_rest are newly allocated and owned by the caller,
+  who is in charge of deleting them (with <CODE>ppl_delete_@CLASS@</CODE> and
+  <CODE>ppl_delete_Pointset_Powerset_Grid</CODE>, respectively);
+  \p *p_finite is set to zero if the partition is not finite.
+*/
 int
 ppl_@CLASS@_approximate_@PARTITION@
 PPL_PROTO((ppl_const_@CLASS@_t x,
